@@ -14,6 +14,7 @@ RULES = {
     "R-01.2": "_validate_labels raises LabelTooLong exactly for len(label) >= 64 and NameTooLong exactly for sum(len+1) >= 256",
     "R-01.3": "wire decoding: every seek target is strictly below every earlier pointer and the name's start; literal labels are < 64 octets; other label types raise; the loop consumes input on every iteration",
     "R-01.4": "compression table: offsets stored are <= 0x3FFF and taken before the label is written, keyed by the same suffix that is looked up; the root is never inserted; pointers are 0xC000 + stored offset",
+    "R-01.10": "the text escape state machine (from_text and from_unicode alike) starts every escape from a clean state: the branch that enters the escaping state zeroes the digit counter and the accumulated value there, not at label boundaries - otherwise a second escape in one label is misread or refused",
     "R-01.9": "Name.to_wire derelativizes in two arms (bytes returned, file written); each arm that appends the origin's labels bounds the result by 255 octets: the file arm builds Name(labels) (validated), the bytes arm raises NameTooLong when len(out) > 255",
     "R-01.8": "relativization and derelativization against an origin keep every other label: Name.relativize strips exactly len(origin) labels (C06 R-06.4 relativize/choose and R-06.6 negative-zero slices adopted) - the text round trip under an origin rests on it",
     "R-01.7": "text emission and parsing decide relativity on the right object: Name.to_styled_text reads only the name produced by choose_relativity (never `self` again), and from_text / from_unicode decide whether to append the origin from the parsed labels (a trailing empty label), not from the raw text",
@@ -308,6 +309,31 @@ def run(model, rep, tier):
         farm = [c for c in ast.walk(tw9.node) if isinstance(c, ast.Call) and src(c.func) == "Name" and c not in list(ast.walk(arm[0]))]
         rep.check(bool(farm), "R-01.9", tw9.qualname, where(tw9, tw9.node), "the file arm constructs Name(labels[i:]) - validated - before writing anything",
                   "the file arm no longer constructs a (validated) Name from the combined labels", stmt="file-arm-bound")
+    # ---------------------------------------------------------------- R-01.10
+    n_sm = 0
+    for qn in ("dns.name.from_text", "dns.name.from_unicode"):
+        fe = model.func(qn)
+        loops = [l_ for l_ in ast.walk(fe.node) if isinstance(l_, ast.For) and any(isinstance(st, ast.If) and isinstance(st.test, ast.Name) for st in l_.body)]
+        if len(loops) != 1:
+            rep.blind("R-01.10", qn, where(fe, fe.node), "the character loop `for c in text: if <escaping>: ...` was not found", stmt="escape-reset")
+            continue
+        head = next(st for st in loops[0].body if isinstance(st, ast.If) and isinstance(st.test, ast.Name))
+        esc = head.test.id
+        arm = head.body
+        touched = {t_.id for st in arm for x in ast.walk(st) if isinstance(x, (ast.Assign, ast.AugAssign)) for t_ in (x.targets if isinstance(x, ast.Assign) else [x.target]) if isinstance(t_, ast.Name)}
+        zeroed = {t_.id for x in ast.walk(fe.node) if isinstance(x, ast.Assign) and isinstance(x.value, ast.Constant) and x.value.value == 0 and x.value.value is not False for t_ in x.targets if isinstance(t_, ast.Name)}
+        state = sorted((touched & zeroed) - {esc})
+        enters = [b for b in pat._bodies(loops[0]) if any(isinstance(st, ast.Assign) and any(isinstance(t_, ast.Name) and t_.id == esc for t_ in st.targets) and isinstance(st.value, ast.Constant) and st.value.value is True for st in b)]
+        if len(enters) != 1 or len(state) < 2:
+            rep.blind("R-01.10", qn, where(fe, loops[0]), f"escape entry / state variables not identified (entries {len(enters)}, state {state})", stmt="escape-reset")
+            continue
+        n_sm += 1
+        here = {t_.id for st in enters[0] if isinstance(st, ast.Assign) and isinstance(st.value, ast.Constant) and st.value.value == 0 and st.value.value is not False for t_ in st.targets if isinstance(t_, ast.Name)}
+        missing = [v for v in state if v not in here]
+        rep.check(not missing, "R-01.10", qn, where(fe, enters[0][0]), f"entering an escape zeroes {state}",
+                  f"the branch that enters the escaping state does not zero {missing}: after one complete \\DDD escape the next escape in the same label starts with stale digits "
+                  "(it is refused with BadEscape or decoded to the wrong octet), so text the library itself produced does not parse back", stmt="escape-reset")
+    rep.floor("R-01.10", n_sm, 2)
     rep.meta["explanation"] = (
         "Must-pass-through and who-may-write rules for the validation gate, normalised-bound rules for the 63/255 limits and the compression offset, a well-founded-measure argument for "
         "wire decoding (pointer strictly decreasing, loop consumes), and set comparison between the octets readers treat specially and the octets the writer escapes (both folded from the source). "
@@ -315,6 +341,9 @@ def run(model, rep, tier):
 
 
 WITNESSES = [
+    {"id": "c01-from-unicode-escape-reset-at-label-boundary", "rule": "R-01.10", "file": "dns/name.py", "expect": "fires",
+     "old": "                labels.append(idna_codec.encode(label))\n                label = \"\"\n            elif c == \"\\\\\":\n                escaping = True\n                edigits = 0\n                total = 0\n",
+     "new": "                labels.append(idna_codec.encode(label))\n                label = \"\"\n                edigits = 0\n                total = 0\n            elif c == \"\\\\\":\n                escaping = True\n"},
     {"id": "c01-bytes-arm-unbounded", "rule": "R-01.9", "file": "dns/name.py", "expect": "fires",
      "old": "                if len(out) > 255:\n                    raise NameTooLong\n", "new": ""},
     {"id": "c01-styled-text-tests-self", "rule": "R-01.7", "file": "dns/name.py", "expect": "fires",
